@@ -4,11 +4,12 @@
 //
 // op encoding (parse_op in SnapStore.v):
 //
-//	0 ty fam fixed q1..q5   start over with list type ty on API family fam (0 FunctionData, 2 FeatureRemote,
+//	0 ty fam fixed q1..q7   start over with list type ty on API family fam (0 FunctionData, 2 FeatureRemote,
 //	                        3 FeatureLocal; 1 / 4 = 0 / 2 for a type whose UpdateList returns no data); fixed=1: the repaired FunctionData.UpdateData; q1..q5: value-level
 //	                        engine switches, probed from the real engine at start-up (see probe.go)
 //	1 remote persist wire <items> <filter partial> <filter delete>     one update (harness/upd encoding)
 //	2                       DataCopy, the result kept
+//	3 / 4 ...               family 5, see usecase.go
 //
 // obs encoding: 10 code | 15 kind oc ac <items> (object handed out: 0 DataCopy, 1 returned data, 2 event
 // payload; oc/ac = 1 + index of the first handed-out object sharing the outer struct / backing array) |
@@ -49,7 +50,7 @@ var stats = map[string]int{}
 
 var fixedFlag = int64(1)
 var noReader = os.Getenv("C11_NOREADER") != ""
-var quirks [5]int64
+var quirks [7]int64
 
 func init() {
 	if os.Getenv("C11_VARIANT") == "pinned" {
@@ -86,7 +87,7 @@ func initOp(ti *upd.TypeInfo, fam int) hx.Zs {
 			fam = 4
 		}
 	}
-	return hx.Zs{0, int64(ti.Index), int64(fam), fixedFlag, quirks[0], quirks[1], quirks[2], quirks[3], quirks[4]}
+	return hx.Zs{0, int64(ti.Index), int64(fam), fixedFlag, quirks[0], quirks[1], quirks[2], quirks[3], quirks[4], quirks[5], quirks[6]}
 }
 
 type impl struct{ w *world }
@@ -118,6 +119,10 @@ func (m *impl) Exec(op hx.Zs) []hx.Zs {
 }
 
 func gen(r *hx.Rng, tier string, i int) []hx.Zs {
+	if i%12 == 11 {
+		perFamily["5"]++
+		return genUseCases(r, tier)
+	}
 	var ti *upd.TypeInfo
 	switch i % 4 {
 	case 0:
@@ -172,6 +177,12 @@ func fixed(tier string) [][]hx.Zs {
 		// update on an empty store that is not persisted / fails
 		out = append(out, []hx.Zs{initOp(ti, fam), {2},
 			ti.EncodeUpdate(0, np, 0, [][]int64{{2, 1, 1}}, part, none), {2}})
+		// a selector update without any data item (306e400), a selector meeting an item without
+		// identifier (db846a9): failed / no match on the repaired engine, panics before
+		out = append(out, []hx.Zs{initOp(ti, fam),
+			ti.EncodeUpdate(0, 1, 0, [][]int64{{2, 1, 1}, {0, 4, 4}}, none, none), {2},
+			ti.EncodeUpdate(0, 1, 0, nil, sel(2), none),
+			ti.EncodeUpdate(0, 1, 0, [][]int64{{0, 5, 0}}, sel(3), none), {2}})
 	}
 	// a refused remote write on a writecheck type: item 1 not changeable, identifier-less data for all
 	if lc := byName["loadControlLimitListData"]; lc != nil && len(lc.WC) == 1 {
@@ -204,7 +215,7 @@ func main() {
 		Property: "C11",
 		Clauses: map[int64]string{1: "handed-out-data-changed", 2: "non-persisting-update-changed-store",
 			3: "failed-update-changed-store", 4: "malformed-observation", 98: "unparseable-observation", 99: "unparseable-operation"},
-		OpNames: map[int64]string{0: "init", 1: "update", 2: "snapshot"},
+		OpNames: map[int64]string{0: "init", 1: "update", 2: "snapshot", 3: "usecase-datacopy", 4: "usecase-operation"},
 		NewImpl: newImpl,
 		Gen:     gen,
 		Fixed:   fixed,
@@ -218,7 +229,8 @@ func main() {
 			return map[string]any{"registered_list_types": len(types), "types_exercised": len(perType), "histories_per_type": perType,
 				"histories_per_family": perFamily, "engine_switches_probed": map[string]int64{"selector_updates_all_matches": quirks[0],
 					"writecheck_flag_restored": quirks[1], "delete_checks_addressed_items_only": quirks[2],
-					"merge_fails_for_addressed_items_only": quirks[3], "merge_fails_for_unknown_identifier": quirks[4]},
+					"merge_fails_for_addressed_items_only": quirks[3], "merge_fails_for_unknown_identifier": quirks[4],
+					"selector_skips_item_without_value": quirks[5], "selector_update_without_data_fails": quirks[6]},
 				"model_variant_fixed": fixedFlag, "concurrent_reader": !noReader, "measured": stats}
 		},
 	})
